@@ -338,6 +338,10 @@ class Engine:
                     all(isinstance(a, Sc) for a in args) and any(is_sym(a.v) for a in args):
                 return self.apply_summary(ctx, fn, args, fenv)
             return self.run(ctx, fn, args, fenv)
+        # tuple-variant constructor used as a function value (`.map(RegisteredLabel::Assigned)`)
+        if self_ty is not None and cp.method and self.impls.has_variant(self_ty.name, cp.method) \
+                and not self.impls.is_fieldless(self_ty.name):
+            return Adt(self_ty.name, cp.method, list(args))
         r = models.call(self, ctx, cp, self_ty, trait, generics, args, env)
         if r is models.NO_MODEL:
             raise Unsupported("no MIR body and no model for callee %s (self=%s trait=%s)" % (cp.raw, self_ty, trait))
@@ -687,7 +691,19 @@ class Engine:
             v = self.place(ctx, fr, rv[1]).get()
             return models.seq_len(ctx, v)
         if k == "repeat":
-            raise Unsupported("repeat rvalue")
+            # `[x; N]` with a literal or named-constant count
+            cnt = rv[2].strip()
+            m = re.match(r"^(?:const )?(\d+)(?:_usize)?$", cnt)
+            if m:
+                n = int(m.group(1))
+            else:
+                c = self.eval_const(ctx, fr, cnt if cnt.startswith("const ") else "const " + cnt) \
+                    if hasattr(self, "eval_const") else None
+                if not isinstance(c, Sc) or is_sym(c.v):
+                    raise Unsupported("repeat rvalue with count %r" % (cnt,))
+                n = int(c.v)
+            x = self.operand(ctx, fr, rv[1])
+            return Arr([copy_val(x) for _ in range(n)])
         raise Unsupported("rvalue %r" % (rv,))
 
     def discriminant_of(self, v):
